@@ -69,6 +69,27 @@ def gen_sfc():
     if not guard and not bare:
         raise Fail("second par_chunks call of z_curve_partition not recognised")
     out += "Definition zcurve_chunk_guard : bool := %s.\n" % coq_bool(guard is not None)
+    # the recursion is started with the requested order, unchanged (no clamp between the public
+    # `order` field and the recursion depth), and descends by exactly one level per call
+    zpn = re.sub(r"//[^\n]*", "", zp)
+    zpn = re.sub(r"\s+", "", zpn)
+    starts = re.findall(r"z_curve_partition_recurse\(([^;]*?)\);", zpn)
+    if starts != ["points,order,&obb,&mutpermutation"]:
+        raise Fail("z_curve_partition must start the recursion as z_curve_partition_recurse(points, order, &obb, &mut permutation)")
+    if re.search(r"order\.(min|max|clamp|saturating_sub|checked_sub)\(|(min|max|clamp)\(order", zpn) or re.search(r"(?<![a-z_])order=[^=]", zpn):
+        raise Fail("z_curve_partition modifies `order` before the recursion")
+    zr = fn_body(z, "z_curve_partition_recurse")
+    zrn = re.sub(r"\s+", "", re.sub(r"//[^\n]*", "", zr or ""))
+    if "z_curve_partition_recurse(points,order-1,&mbr.sub_mbr(iasu32),slice)" not in zrn or "iforder==0||permu.len()<=1{return;}" not in zrn:
+        raise Fail("z_curve_partition_recurse: stop test / recursive call not recognised")
+    zimpl = re.sub(r"\s+", "", z)
+    if "z_curve_partition(part_ids,points,self.part_count,self.order);" not in zimpl:
+        raise Fail("ZCurve::partition must pass self.order unchanged")
+    out += "Definition zcurve_depth_is_order : bool := true.\n"
+    for which in ("2d", "3d"):
+        if ("letindex_fn=index_fn_%s(points,self.orderasusize);" % which) not in re.sub(r"\s+", "", src):
+            raise Fail("HilbertCurve::partition must pass self.order unchanged to index_fn_%s" % which)
+    out += "Definition hilbert_order_passed_unchanged : bool := true.\n"
     if not re.search(r"type\s+HashType\s*=\s*u128\s*;", z) or \
        not re.search(r"\(HASH_TYPE_MAX as f64\)\.log\(f64::from\(1 << D\)\) as u32", zp):
         raise Fail("max_order formula of z_curve_partition not recognised")
@@ -96,7 +117,8 @@ PROP = dict(
          "arbitrary fractional; 1/25 tiny totals: j*scale with scale 2^-55..2^-1074 and 1e-16..1e-300) x part_count 1..n+2 x orders 0..MAX+1 x pools 1,2,4,8,16, plus a malformed stream (1/15: weights or ids shorter/longer "
          "than the points; outside the contract, model vs implementation only); (3) ZCurve on the same point families x "
          "part_count 1..n+2 x orders 0..max_order+1 x the same pools, 1/3 of them midline lattices (product grids on a 0.1 / 0.25 lattice, "
-         "axes spanning zero with bounds of magnitude 16..32 mostly, points on the midlines of the first levels, orders 2..9). distinct = distinct (stream, points, weights, part_count, order, "
+         "axes spanning zero with bounds of magnitude 16..32 mostly, points on the midlines of the first levels, orders 2..9) and 1/40 deep-order "
+         "clusters (2-D orders 54..64 / 3-D 40..42, points k*2^-e next to a zero of the box frame, shuffled). distinct = distinct (stream, points, weights, part_count, order, "
          "pool); non-trivial = bsearch: len >= 2; curves: at least 3 points, part_count >= 2, an accepted order and matching lengths",
     class_names={0: "Ok", 2: "error (InvalidOrder)", 3: "panic", 4: "hang", 10: "bsearch"},
     trusted_base=[
